@@ -3,7 +3,11 @@ package navmesh
 import (
 	"github.com/kercylan98/minotaur/toolkit/geometry"
 	"github.com/kercylan98/minotaur/toolkit/navigate/astar"
+	"math"
 )
+
+// radToDeg 将 PolarAngle 返回的弧度转换为 CalcAngleDifference 所需的角度
+const radToDeg = 180 / math.Pi
 
 // NewNavMesh 创建一个新的导航网格，并返回一个指向该导航网格的指针。
 //
@@ -251,8 +255,8 @@ func (m *NavMesh) generateLink() {
 					edgeAngle := shapeCentroid.PolarAngle(shapeEdge[0])
 					a1 := shapeCentroid.PolarAngle(overlapLine[0])
 					a2 := shapeCentroid.PolarAngle(overlapLine[1])
-					a3 := geometry.CalcAngleDifference(edgeAngle, a1)
-					a4 := geometry.CalcAngleDifference(edgeAngle, a2)
+					a3 := geometry.CalcAngleDifference(edgeAngle*radToDeg, a1*radToDeg)
+					a4 := geometry.CalcAngleDifference(edgeAngle*radToDeg, a2*radToDeg)
 					if a3 < a4 {
 						shapePkg.portals = append(shapePkg.portals, geometry.NewLineSegment(overlapLine[0], overlapLine[1]))
 					} else {
@@ -262,8 +266,8 @@ func (m *NavMesh) generateLink() {
 					edgeAngle = targetShapeCentroid.PolarAngle(targetEdge[0])
 					a1 = targetShapeCentroid.PolarAngle(overlapLine[0])
 					a2 = targetShapeCentroid.PolarAngle(overlapLine[1])
-					a3 = geometry.CalcAngleDifference(edgeAngle, a1)
-					a4 = geometry.CalcAngleDifference(edgeAngle, a2)
+					a3 = geometry.CalcAngleDifference(edgeAngle*radToDeg, a1*radToDeg)
+					a4 = geometry.CalcAngleDifference(edgeAngle*radToDeg, a2*radToDeg)
 					if a3 < a4 {
 						targetShapePkg.portals = append(targetShapePkg.portals, geometry.NewLineSegment(overlapLine[0], overlapLine[1]))
 					} else {
